@@ -12,7 +12,8 @@ RULE = (
     'expressions; sub-trees are addressable) and their deep snapshots (structure, every stored type, metadata contents, hash); rules apply '
     'str/hash/==, every reference query, iterate, is_fully_typed, cast to each base type, but() with same and changed fields (incl. a narrower '
     'quantifier domain), replace_var_reference/replace_self_reference, simplify, split_and, refactor_reference, both replacements, negate, join, '
-    'canonical_form and type_check_references(schema) to a pool member or one of its sub-trees; results join the pool. Invariant after every '
+    'canonical_form and type_check_references(schema) to a pool member or one of its sub-trees; results join the pool; an annotate step writes a '
+    'note into the metadata dict of one object the user was handed (which may change that object and what contains it, nothing else). Invariant after every '
     'rule: every snapshot taken earlier is unchanged. but() is also checked against a fresh construction. Non-trivial: the sequence contains a '
     'rewriting call whose result differs from its input; distinct by the executed program.'
 )
@@ -21,7 +22,7 @@ ASSUMPTIONS = ['astx.snapshot reads every attrs field of every node (incl. data_
 OPS = (
     'str', 'hash', 'eq', 'queries', 'iterate', 'fully_typed', 'cast', 'but_same', 'but_changed', 'but_domain', 'replace_var_lit',
     'replace_self', 'simplify', 'split_and', 'refactor', 'this_to_var', 'var_to_this', 'negate', 'join', 'canonical', 'type_check',
-    'reconstruct', 'but_metadata', 'reparse',
+    'reconstruct', 'but_metadata', 'reparse', 'annotate',
 )  # fmt: skip
 REWRITES = {'simplify', 'split_and', 'refactor', 'this_to_var', 'var_to_this', 'negate', 'join', 'canonical', 'replace_var_lit', 'replace_self', 'but_changed', 'but_domain'}
 
@@ -89,10 +90,25 @@ class Pool:
             self.add(a, f'parse[{kind}] {text[:80]}', info)
         self.check_invariant()
 
+    def annotate(self, i, k, x):
+        """A user writes a note into the metadata dict of one object it was handed (a pool member's root). That changes
+        this object, and every pool member that contains this very object; nothing else may change - in particular not
+        the tree it was derived from (a metadata dict shared between an object and its source is how that happens)."""
+        obj = self.items[(i * 61 + k) % len(self.items)][0]
+        if not isinstance(getattr(obj, 'metadata', None), dict):
+            return
+        obj.metadata[f'note{x % 3}'] = x
+        for it in self.items:
+            if any(n is obj for n in astx.preorder(it[0])):
+                it[1] = (astx.snapshot(it[0]), _safe_hash(it[0]))
+        self.check_invariant()
+
     def op(self, name, i, k, x):
         if not self.items:
             return
         self.program.append([name, i, k, x])
+        if name == 'annotate':
+            return self.annotate(i, k, x)
         # target selection: among all (pool member, sub-tree) pairs the operation applies to
         want = TARGETS.get(name)
         cands = []
@@ -105,6 +121,7 @@ class Pool:
         if not cands:
             return
         root, node, desc, info = cands[(i * 61 + k) % len(cands)]
+        known = {id(n) for it in self.items for n in astx.preorder(it[0])}
         try:
             res = self._apply(name, node, root, x, info)
         except Violation:
@@ -114,12 +131,33 @@ class Pool:
         except Exception as e:  # HplSanityError etc.
             res = None
         if res is not None:
-            for r in res if isinstance(res, (list, tuple)) else [res]:
-                if hasattr(r, '__attrs_attrs__') and r is not node:
-                    if name in REWRITES and r != node:
-                        self.rewrote = True
-                    self.add(r, f'{name}({desc[:60]})', info)
+            results = [r for r in (res if isinstance(res, (list, tuple)) else [res]) if hasattr(r, '__attrs_attrs__') and r is not node]
+            # results of one call may share new nodes with each other: all are probed before any joins the pool
+            for r in results:
+                self.probe_metadata(name, r, known)
+            for r in results:
+                if name in REWRITES and r != node:
+                    self.rewrote = True
+                self.add(r, f'{name}({desc[:60]})', info)
         self.check_invariant()
+
+    def probe_metadata(self, name, r, known):
+        """Every node object the step created (not present in any pool member before) gets a note written into its
+        metadata dict for a moment, as a user of the result might do; no AST obtained earlier may show it."""
+        fresh = [n for n in astx.preorder(r) if id(n) not in known and isinstance(getattr(n, 'metadata', None), dict)][:24]
+        for n in fresh:
+            n.metadata['__hplverif_probe__'] = 1
+        try:
+            if fresh:
+                for ast, (snap, _h), desc, _info in self.items:
+                    if astx.snapshot(ast) != snap:
+                        raise Violation(
+                            'machine', f'metadata-shared:{name}', {'program': self.program},
+                            f'a note written into the metadata of an object created by step {self.program[-1]} shows up in an AST obtained earlier ({desc}): a metadata dict is shared between a tree and its source\n{_first_diff(snap, astx.snapshot(ast))}',
+                        )  # fmt: skip
+        finally:
+            for n in fresh:
+                n.metadata.pop('__hplverif_probe__', None)
 
     def _apply(self, name, node, root, x, info):
         from hpl import rewrite as rw
